@@ -127,6 +127,15 @@ def gen_cases(rng, tier):
             k = rng.randrange(len(t))
             t2 = t[:k] + [rng.choice([c for c in range(48, 123) if up([c]) != up([t[k]])])] + t[k + 1:]
             yield pair(rc(), mixed(rng, t), rc(), t2), ["one-byte", "interned-near"]
+    # -- the longest interned names, extended (one byte, a suffix, a long suffix; any case), through EVERY string constructor against
+    # every other: a name that merely begins with an interned name is a different name whatever builds it
+    longest = sorted(T, key=len, reverse=True)[:3] + sorted(T, key=len)[:2]
+    for t in longest:
+        for ext in ([95], [83], list(b"_hint"), list(b"S_AND_MORE_TEXT_BEHIND_IT")):
+            for v in (t + ext, lo(t + ext), mixed(rng, t + ext)):
+                for c1 in STR_CTORS:
+                    yield pair(c1, v, rng.choice(STR_CTORS), t), ["interned-near", "interned-extended"]
+                    yield pair(c1, v, rng.choice(STR_CTORS), v), ["interned-near", "interned-extended"]
     # all ordered pairs of constants once (order of the enum vs order of the names)
     if thorough:
         for a in T:
